@@ -52,7 +52,7 @@ WRAPPERS = [
     ("fields/collections_impl.py", "_DequeStruct",
      ["__getitem__", "__iter__", "__init__", "copy", "__getstate__", "__deepcopy__", "__setstate__"]),
     ("fields/collections_impl.py", "_DictStruct",
-     ["__init__", "copy", "items", "values", "__getstate__", "__deepcopy__", "__setstate__"]),
+     ["__getitem__", "__init__", "copy", "items", "values", "__getstate__", "__deepcopy__", "__setstate__"]),
 ]
 EARLY = ("__getitem__", "__iter__")          # translated before the iteration glue exists
 RETURNS_SELF = ("__init__", "__setstate__")
